@@ -39,6 +39,7 @@ type tScenario struct {
 	Pubs    [][]tUpd
 	Subs    []tSubSpec
 	Close   bool
+	Close2  bool // a second, concurrent call of Close
 }
 
 type tPubObs struct {
@@ -150,14 +151,33 @@ func transScenario(sc tScenario, dir string) Scenario {
 				}
 			})
 		}
+		// Close, possibly called twice concurrently: CloseStart is when the first call began, CloseEnd when the first of
+		// them RETURNED - from then on every operation must be rejected
+		ncl := 0
 		if sc.Close {
+			ncl = 1
+			if sc.Close2 {
+				ncl = 2
+			}
+		}
+		clStart, clEnd := make([]int, ncl), make([]int, ncl)
+		for ci := 0; ci < ncl; ci++ {
+			ci := ci
 			threads = append(threads, func() {
-				obs.CloseStart = tick()
+				clStart[ci] = tick()
 				_ = t.Close()
-				obs.CloseEnd = tick()
+				clEnd[ci] = tick()
 			})
 		}
 		collect := func(deadlock bool, panics []string) string {
+			for ci := 0; ci < ncl; ci++ {
+				if clStart[ci] != 0 && (obs.CloseStart == 0 || clStart[ci] < obs.CloseStart) {
+					obs.CloseStart = clStart[ci]
+				}
+				if clEnd[ci] != 0 && (obs.CloseEnd == 0 || clEnd[ci] < obs.CloseEnd) {
+					obs.CloseEnd = clEnd[ci]
+				}
+			}
 			obs.Deadlock = deadlock
 			obs.Panic = len(panics) > 0
 			obs.Panics = panics
@@ -297,6 +317,7 @@ func genTrans(r *hx.Rng) tScenario {
 		sc.Subs = append(sc.Subs, sp)
 	}
 	sc.Close = len(sc.Pubs)+len(sc.Subs) < 4 && r.Chance(0.3)
+	sc.Close2 = sc.Close && len(sc.Pubs)+len(sc.Subs) < 3 && r.Chance(0.4)
 	return sc
 }
 
@@ -329,6 +350,9 @@ func runTrans(a args) error {
 		// Close while an already disconnected subscriber is still listed, with live ones registered after it
 		{Kind: "local", Subs: []tSubSpec{{Topics: []string{"a"}, Leave: true}, {Topics: []string{"a"}}, {Topics: []string{"*"}}}, Close: true},
 		{Kind: "bolt", Subs: []tSubSpec{{Topics: []string{"a"}, Leave: true}, {Topics: []string{"a"}}, {Topics: []string{"*"}}}, Close: true},
+		// two concurrent calls of Close: none may return before the transport is closed
+		{Kind: "local", Pubs: [][]tUpd{{{1, []string{"a"}, false}}}, Subs: []tSubSpec{{Topics: []string{"a"}}}, Close: true, Close2: true},
+		{Kind: "bolt", Pubs: [][]tUpd{{{1, []string{"a"}, false}}}, Subs: []tSubSpec{{Topics: []string{"a"}}}, Close: true, Close2: true},
 	}
 	total := 0
 	for i := 0; i < len(corpus)+a.n; i++ {
